@@ -16,8 +16,33 @@
   `bytesToUint16_signed_rejected`, `bytesToUint16_too_big`: digits only, no sign, no reduction modulo
   2^16), and nothing may follow the comma that ends the piece (`parseFragment_trailing_rejected`,
   `parseFragment_eq_some_iff`, `parseFragment_some`).
+
+  Conversation level (Proofs.FragRefine): the abstract machine above is what the conversation model does —
+  `receiveFragment` / the fragment branch of `receiveUnit` in Otr.Conv, the functions the `conv` correspondence
+  profiles exercise.  `prefixPure c bytes` is `parseFragmentPrefix` as a function of the conversation
+  (`parseFragmentPrefix_run`); the verdict on the bytes of a fragment is `fragStepOf` (`FragStep`: ignore =
+  foreign instance or no version to commit to, invalid = unparsable, ok = `fragAccept`), and `fragArrival c bytes`
+  is the `Arrival` they stand for (the parsed triple, else the arrival `noArrival` that `fragAccept` ignores).
+  `receiveFragment_run` / `receiveFragment_refines`: exact behaviour of `receiveFragment`, one `acceptStep`.
+  `recvFragmentWith inner` is the fragment branch of `receiveUnit` with the recursive call abstracted
+  (`receiveUnit_fragment_eq`); `recvFragmentWith_run` / `receiveUnit_fragment_refines`: the call is one
+  `deliverStep` from the conversation's context — the inner `receiveUnit` runs iff the abstract machine delivers,
+  on exactly its delivered bytes, from the state `fragSettled s msg` whose context is already empty
+  (`fragSettled_forgotten`).  Sequences: `receive_fragments_refine` (inner handler that reports its argument and
+  leaves the conversation alone, `InnerReports`; the arrivals are classified in the evolving conversation,
+  `fragArrivals`; `fragArrivals_settled`: in a conversation with version and peer tag fixed they are
+  `msgs.map (fragArrival c)`), and through it `c14_conv_only_complete`, `c14_conv_exactly_once`;
+  `receiveUnit_fragment_only_complete` is the invariant form for the real recursive `receiveUnit`.
+  `c14_conv_lossless`: `fragment` followed by this receiver (`RecvOK`: same version, v3 tags of the header
+  accepted — `parseItag_fmt08x`, `v3PrefixParse_piece`, `prefixPure_piece`) yields the original bytes, once,
+  after the last piece.  `receiveUnit_invalid_fragment_frame(_committed/_unbound)`: a rejected
+  (unparsable) or discarded (illegally numbered) fragment changes nothing but the logs — version, long-term
+  key choice and peer tag included, in every state (repaired code: `version`, `theirTag` and the key selected
+  by `setKeyMatchingVersion` are put back); `…_fresh`: the conversation without a version that was the
+  witness against the frame before that repair, now an instance of it.
 -/
 import Proofs.Frag
+import Proofs.FragRefine
 namespace Otr.C14
 open Otr
 
@@ -117,6 +142,90 @@ theorem deliverStep_not_finished (st : FragCtx × List Bytes) (a : Arrival) :
     (deliverStep st a).1.finished = false := by
   exact Otr.deliverStep_not_finished st a
 
+/-! ### conversation level: `receiveFragment` / `receiveUnit` refine the abstract machine (Proofs.FragRefine) -/
+
+/-- `parseFragmentPrefix` as a pure function of the conversation: never throws, never panics -/
+theorem parseFragmentPrefix_run : type_of% @Otr.parseFragmentPrefix_run := @Otr.parseFragmentPrefix_run
+
+/-- `parseFragmentPrefix` touches only version, key choice, peer tag and pending injections -/
+theorem prefixPure_frame : type_of% @Otr.prefixPure_frame := @Otr.prefixPure_frame
+
+/-- exact behaviour of `receiveFragment`: ignore / invalid (error) / `fragAccept` -/
+theorem receiveFragment_run : type_of% @Otr.receiveFragment_run := @Otr.receiveFragment_run
+
+/-- the arrival is the parsed triple iff the bytes are accepted, else the one `fragAccept` ignores -/
+theorem fragArrival_cases : type_of% @Otr.fragArrival_cases := @Otr.fragArrival_cases
+
+/-- `receiveFragment` is one `acceptStep`, and what the caller does next is `deliverStep` -/
+theorem receiveFragment_refines : type_of% @Otr.receiveFragment_refines := @Otr.receiveFragment_refines
+
+/-- `receiveUnit` on a fragment is its fragment branch with itself as the inner call -/
+theorem receiveUnit_fragment_eq : type_of% @Otr.receiveUnit_fragment_eq := @Otr.receiveUnit_fragment_eq
+
+/-- the fragment branch is one `deliverStep`: inner call iff delivery, on the delivered bytes (any inner) -/
+theorem recvFragmentWith_run : type_of% @Otr.recvFragmentWith_run := @Otr.recvFragmentWith_run
+
+/-- the same for `receiveUnit` itself: recursive call iff `deliverStep` delivers, on exactly those bytes -/
+theorem receiveUnit_fragment_refines : type_of% @Otr.receiveUnit_fragment_refines := @Otr.receiveUnit_fragment_refines
+
+/-- when a message is delivered the context has already been forgotten -/
+theorem fragSettled_forgotten : type_of% @Otr.fragSettled_forgotten := @Otr.fragSettled_forgotten
+
+/-- the reporting handler used to observe the inner calls leaves the conversation alone -/
+theorem reportInner_reports : type_of% @Otr.reportInner_reports := @Otr.reportInner_reports
+
+/-- sequences: the byte strings handed to the inner call are the abstract machine's output -/
+theorem receive_fragments_refine : type_of% @Otr.receive_fragments_refine := @Otr.receive_fragments_refine
+
+/-- in a settled conversation every byte string is classified independently of the earlier ones -/
+theorem fragArrivals_settled : type_of% @Otr.fragArrivals_settled := @Otr.fragArrivals_settled
+
+/-- `receive_fragments_refine` with the arrivals `msgs.map (fragArrival c)` -/
+theorem receive_fragments_refine_settled : type_of% @Otr.receive_fragments_refine_settled :=
+  @Otr.receive_fragments_refine_settled
+
+/-- whatever is processed is pieces 1..n of one stream with total n, in order (conversation level) -/
+theorem c14_conv_only_complete : type_of% @Otr.c14_conv_only_complete := @Otr.c14_conv_only_complete
+
+/-- one segment of arrivals per processed message, nothing processed twice (conversation level) -/
+theorem c14_conv_exactly_once : type_of% @Otr.c14_conv_exactly_once := @Otr.c14_conv_exactly_once
+
+/-- invariant form for the real recursive `receiveUnit`: nothing but a complete stream is processed -/
+theorem receiveUnit_fragment_only_complete : type_of% @Otr.receiveUnit_fragment_only_complete :=
+  @Otr.receiveUnit_fragment_only_complete
+
+/-- instance tag round trip: `parseItag` reads back what `%08x` wrote -/
+theorem parseItag_fmt08x : type_of% @Otr.parseItag_fmt08x := @Otr.parseItag_fmt08x
+
+/-- the v3 header of `fragmentPrefix` is parsed back: both tags, 23 bytes -/
+theorem v3PrefixParse_piece : type_of% @Otr.v3PrefixParse_piece := @Otr.v3PrefixParse_piece
+
+/-- `parseFragmentPrefix` accepts the header `fragmentPrefix` writes when the receiver's tags match -/
+theorem prefixPure_piece : type_of% @Otr.prefixPure_piece := @Otr.prefixPure_piece
+
+/-- what `fragment` sends is classified as a fragment -/
+theorem guessMessageType_fragTag : type_of% @Otr.guessMessageType_fragTag := @Otr.guessMessageType_fragTag
+
+/-- sender then receiver, both versions: the original message is handed on once, after the last piece -/
+theorem c14_conv_lossless : type_of% @Otr.c14_conv_lossless := @Otr.c14_conv_lossless
+
+/-- a rejected or discarded fragment changes nothing in the conversation but the event/error log -/
+theorem receiveUnit_invalid_fragment_frame : type_of% @Otr.receiveUnit_invalid_fragment_frame :=
+  @Otr.receiveUnit_invalid_fragment_frame
+
+/-- a rejected or discarded fragment, every state: the pending injections are handed out, nothing else moves -/
+theorem receiveUnit_invalid_fragment_frame_committed : type_of% @Otr.receiveUnit_invalid_fragment_frame_committed :=
+  @Otr.receiveUnit_invalid_fragment_frame_committed
+
+/-- neither version nor key choice nor peer tag nor context are changed by a rejected or discarded fragment -/
+theorem receiveUnit_invalid_fragment_unbound : type_of% @Otr.receiveUnit_invalid_fragment_unbound :=
+  @Otr.receiveUnit_invalid_fragment_unbound
+
+/-- the former witness against the frame (fresh conversation), now an instance of it -/
+theorem receiveUnit_invalid_fragment_frame_fresh :
+    type_of% @Otr.receiveUnit_invalid_fragment_frame_fresh :=
+  @Otr.receiveUnit_invalid_fragment_frame_fresh
+
 /-! non-vacuity: concrete instances (hypotheses discharged by evaluation) -/
 example : ∀ p ∈ fragment .v3 0x101 0x202 (List.replicate 60 65) 50, p.length ≤ 50 :=
   c14_bounded .v3 0x101 0x202 _ 50 (by decide) (by decide) (by decide) (by decide)
@@ -127,5 +236,14 @@ example : parseFragment (strBytes "+1,00002,ab,") = none ∧ parseFragment (strB
 example : ((fragment .v2 0 0 (List.replicate 40 66) 25).foldl (reassembleStep .v2) FragCtx.empty).frag
     = List.replicate 40 66 :=
   (c14_lossless .v2 0 0 _ 25 (by decide) (by decide) (by decide) (by decide) (by decide) (by decide)).2.1
+-- conversation level: the five v3 pieces of a 60-byte message, received by the addressed conversation
+example := c14_conv_lossless reportInner reportInner_reports .v3 0x101 0x202 exData60 50 exRecvV3
+  (by decide) (by decide) (by decide) (by decide) (by decide) (by decide)
+  ⟨rfl, fun _ => ⟨by decide, by decide⟩⟩ rfl
+-- an unparsable and an illegally numbered fragment in a v2 conversation: nothing but the logs changes
+example (K : Crypto) := receiveUnit_invalid_fragment_frame K 0 (strBytes "?OTR,x") true exRecvV2
+  (by decide) (by decide) (by decide) (by decide) rfl
+example (K : Crypto) := receiveUnit_invalid_fragment_frame K 0 (strBytes "?OTR,00003,00002,x,") true exRecvV2
+  (by decide) (by decide) (by decide) (by decide) rfl
 
 end Otr.C14
